@@ -176,6 +176,39 @@ pub proof fn lemma_small_products(k: int)
     if k >= 4 { assert((k - 2) * (k - 3) >= 1) by(nonlinear_arith) requires k >= 4; }
 }
 
+
+// linearly weighted average: weights 1..n on the non-null elements, oldest -> newest
+pub open spec fn wma_spec(w: Seq<Option<real>>, mp: int, o: U) -> bool {
+    let n = cnt(w);
+    &&& n < mp ==> isnull(o)
+    &&& (n >= mp && n > 0) ==> !isnull(o) && oval(o) == wsum(w) / ((n * (n + 1) / 2) as real)
+}
+// exponentially weighted average with decay q = 1 - alpha:  sum q^j x_(n-1-j) / sum q^j  (stated without division)
+pub open spec fn ewm_spec(w: Seq<Option<real>>, mp: int, q: real, o: U) -> bool {
+    let n = cnt(w);
+    &&& n < mp ==> isnull(o)
+    &&& (n >= mp && n > 0 && 1real - rpow(q, n) != 0real) ==> !isnull(o) && oval(o) * gsum(q, n) == esum(w, q)
+}
+pub proof fn lemma_ewm_value(val: real, e: real, a: real, q: real, n: int)
+    requires n >= 0, a != 0real, q == 1real - a, 1real - rpow(q, n) != 0real, val == e * a / (1real - rpow(q, n)),
+    ensures val * gsum(q, n) == e,
+{
+    let d = 1real - rpow(q, n);
+    lemma_gsum_closed(q, n);
+    let g = gsum(q, n);
+    assert(val * d == e * a) by(nonlinear_arith) requires val == e * a / d, d != 0real;
+    assert(d == g * a);
+    assert((val * g) * a == e * a) by(nonlinear_arith) requires val * d == e * a, d == g * a;
+    assert(val * g == e) by(nonlinear_arith) requires (val * g) * a == e * a, a != 0real;
+}
+pub proof fn lemma_half_even(k: int)
+    requires k >= 0,
+    ensures (k * (k + 1)) % 2 == 0, k >= 1 ==> k * (k + 1) / 2 >= 1,
+{
+    assert((k * (k + 1)) % 2 == 0) by(nonlinear_arith) requires k >= 0;
+    if k >= 1 { assert(k * (k + 1) >= 2) by(nonlinear_arith) requires k >= 1; }
+}
+
 pub proof fn lemma_scaled_pos(a: real, n: real)
     requires a > 0real, n >= 2real,
     ensures a * n / (n - 1real) > 0real,
@@ -628,6 +661,163 @@ pub open spec fn sum_spec(w: Seq<Option<real>>, mp: int, o: U) -> bool {
     }
 //@end
 
+
+//@fn name=ts_wma_to crate=tea-rolling ctx="pub trait RollingFeature" props=C01,C05,C06,C08 arith=C05
+//@types T::Inner=${TI}
+//@sig fn ts_wma_to<V: RollingDrivers<T>, O: Vec1<U>>(this: &V, window: usize, min_periods: Option<usize>, out: Option<&mut O::Buf>) -> (r: Option<O>)
+//@spec
+    requires
+        forall|i: int| 0 <= i < this.view().len() ==> !nan(#[trigger] this.view()[i]),
+        out matches Some(o) ==> buf_fresh(o, this.view().len()),
+        (window == 0 && out.is_none() && this.view().len() > 0) ==> panic_allowed(),
+        this.view().len() <= 0x7fff_ffff,      // A-LEN
+    ensures
+        window >= 1 ==> delivered_each(r, match out { Some(o) => Some(final(o).written()), None => None }, this.view().len(),       // #C05 one_output_per_input
+            |i: int, o: U| wma_spec(vals(wnd(this.view(), window, i)), mp_eff(min_periods, window, 0), o)),                              // #C01,C05,C06 value_and_mask
+//@closure 1 name=CloWma trait="RollingFn<T, U>" params="v_rm: Option<T>, v: T" ret="(res: U)" push="Call { rm: v_rm, v: v, out: __r }" caps="mut sum: f64, mut sum_xt: f64, mut n: usize, min_periods: usize"
+//@closure 1 extra
+    open spec fn hist(&self) -> Seq<Call<T, U>> { self.h@ }
+    open spec fn elem_ok(v: T) -> bool { !nan(v) }
+    open spec fn cap_len() -> nat { 0x7fff_ffff }
+//@closure 1 inv
+        &&& hist_wf(self.h@) && canon_seq(adds(self.h@)) && all_some(vals(adds(self.h@)))
+        &&& self.n as int == cnt(vals(win(self.h@)))
+        &&& rv(self.sum) == ps(vals(win(self.h@)), 1) && !nan(self.sum)                 // #C01 state_describes_window
+        &&& rv(self.sum_xt) == wsum(vals(win(self.h@))) && !nan(self.sum_xt)            // #C01 weighted_state_describes_window
+        &&& outs_ok(self.h@, |w: Seq<T>, o: U| wma_spec(vals(w), self.min_periods as int, o))
+//@at closure 1 first
+        let ghost w0 = vals(win(self.h@));
+        let ghost wp = w0.push(val(v));
+        proof {
+            broadcast use a_real, a_real_cmp;
+            ax_lits();
+            lemma_step_vals(self.h@, v_rm, v);
+            assert(val(v).is_some());
+            if v_rm.is_some() {
+                let k = nrm(self.h@) as int;
+                if k < self.h@.len() { assert(vals(adds(self.h@))[k].is_some()); assert(adds(self.h@).push(v)[k] == adds(self.h@)[k]); }
+                assert(val(v_rm.unwrap()).is_some());
+            }
+            lemma_small_products(self.n as int); lemma_small_products(self.n as int + 1);
+            lemma_half_even(self.n as int); lemma_half_even(self.n as int + 1);
+            lemma_wsum_push(w0, val(v));
+            if v_rm.is_some() { lemma_wsum_drop_first(wp); }
+            assert forall|a: usize| (#[trigger] (a >> 1usize)) == a / 2 by { assert((a >> 1usize) == a / 2) by(bit_vector); }
+        }
+//@at closure 1 last
+        proof {
+            let c = Call { rm: v_rm, v: v, out: __r };
+            lemma_fifo_step(self.h@, c);
+            if v_rm.is_some() { assert(v_rm.unwrap() == adds(self.h@).push(v)[nrm(self.h@) as int]); }
+            assert(adds(self.h@.push(c)) =~= adds(self.h@).push(v));
+            assert(vals(adds(self.h@.push(c))) =~= vals(adds(self.h@)).push(val(v)));
+            assert(wma_spec(vals(win(self.h@).push(v)), self.min_periods as int, __r));       // #C01,C05 output_is_window_statistic
+            lemma_outs_step(self.h@, c, |w: Seq<T>, o: U| wma_spec(vals(w), self.min_periods as int, o));
+        }
+//@at body first
+    let ghost mp0 = min_periods;
+    let ghost out0 = out;
+    proof { ax_lits(); }
+//@at body last
+    proof {
+        let h = __clo1.h@;
+        let s = outs(h);
+        if window >= 1 {
+            let p = |i: int, o: U| wma_spec(vals(wnd(this.view(), window, i)), mp_eff(mp0, window, 0), o);
+            assert forall|i: int| 0 <= i < s.len() implies p(i, #[trigger] s[i]) by {
+                lemma_fifo_window_is_wnd(h, this.view(), window, i);
+                assert(wma_spec(vals(fifo_window(h, i)), __clo1.min_periods as int, h[i].out));
+            }
+            lemma_delivered_each(__ret, match out0 { Some(o) => Some(final(o).written()), None => None }, s, p);
+        }
+    }
+//@end
+
+//@fn name=ts_ewm_to crate=tea-rolling ctx="pub trait RollingFeature" props=C01,C05,C06,C08 arith=C05
+//@types T::Inner=${TI}
+//@sig fn ts_ewm_to<V: RollingDrivers<T>, O: Vec1<U>>(this: &V, window: usize, min_periods: Option<usize>, out: Option<&mut O::Buf>) -> (r: Option<O>)
+//@spec
+    requires
+        forall|i: int| 0 <= i < this.view().len() ==> !nan(#[trigger] this.view()[i]),
+        out matches Some(o) ==> buf_fresh(o, this.view().len()),
+        window >= 1,                            // alpha = 2 / window
+        this.view().len() <= 0x7fff_ffff,      // A-LEN: the valid count is passed to powi as i32
+    ensures
+        window >= 1 ==> delivered_each(r, match out { Some(o) => Some(final(o).written()), None => None }, this.view().len(),       // #C05 one_output_per_input
+            |i: int, o: U| ewm_spec(vals(wnd(this.view(), window, i)), mp_eff(min_periods, window, 0), 1real - 2real / (window as real), o)),   // #C01,C05,C06 value_and_mask
+//@closure 1 name=CloEwm trait="RollingFn<T, U>" params="v_rm: Option<T>, v: T" ret="(res: U)" push="Call { rm: v_rm, v: v, out: __r }" caps="mut q_x: f64, alpha: f64, oma: f64, mut n: usize, min_periods: usize"
+//@closure 1 extra
+    open spec fn hist(&self) -> Seq<Call<T, U>> { self.h@ }
+    open spec fn elem_ok(v: T) -> bool { !nan(v) }
+    open spec fn cap_len() -> nat { 0x7fff_ffff }
+//@closure 1 inv
+        &&& hist_wf(self.h@) && canon_seq(adds(self.h@)) && all_some(vals(adds(self.h@)))
+        &&& self.n as int == cnt(vals(win(self.h@)))
+        &&& !nan(self.alpha) && !nan(self.oma) && rv(self.oma) == 1real - rv(self.alpha) && rv(self.alpha) != 0real
+        &&& rv(self.q_x) == esum(vals(win(self.h@)), rv(self.oma)) && !nan(self.q_x)            // #C01 weighted_state_describes_window
+        &&& outs_ok(self.h@, |w: Seq<T>, o: U| ewm_spec(vals(w), self.min_periods as int, rv(self.oma), o))
+//@at closure 1 first
+        let ghost w0 = vals(win(self.h@));
+        let ghost wp = w0.push(val(v));
+        let ghost q = rv(self.oma);
+        let ghost al = rv(self.alpha);
+        proof {
+            broadcast use a_real, a_real_cmp;
+            ax_lits();
+            lemma_step_vals(self.h@, v_rm, v);
+            assert(val(v).is_some());
+            if v_rm.is_some() {
+                let k = nrm(self.h@) as int;
+                if k < self.h@.len() { assert(vals(adds(self.h@))[k].is_some()); assert(adds(self.h@).push(v)[k] == adds(self.h@)[k]); }
+                assert(val(v_rm.unwrap()).is_some());
+            }
+            lemma_esum_push(w0, val(v), q);
+            if v_rm.is_some() { lemma_esum_drop_first(wp, q); }
+            // q_x + (x - alpha*q_x) == x + (1-alpha)*q_x
+            let e0 = rv(self.q_x);
+            match val(v) {
+                Some(x) => { assert(e0 + (x - al * e0) == x + q * e0) by(nonlinear_arith) requires q == 1real - al; },
+                None => {},
+            }
+            // the output in textbook form, for either possible count
+            let n0 = self.n as int;
+            if 1real - rpow(q, n0) != 0real { lemma_ewm_value(esum(w0, q) * al / (1real - rpow(q, n0)), esum(w0, q), al, q, n0); }
+            if 1real - rpow(q, n0 + 1) != 0real { lemma_ewm_value(esum(wp, q) * al / (1real - rpow(q, n0 + 1)), esum(wp, q), al, q, n0 + 1); }
+        }
+//@at closure 1 last
+        proof {
+            let c = Call { rm: v_rm, v: v, out: __r };
+            lemma_fifo_step(self.h@, c);
+            if v_rm.is_some() { assert(v_rm.unwrap() == adds(self.h@).push(v)[nrm(self.h@) as int]); }
+            assert(adds(self.h@.push(c)) =~= adds(self.h@).push(v));
+            assert(vals(adds(self.h@.push(c))) =~= vals(adds(self.h@)).push(val(v)));
+            assert(ewm_spec(vals(win(self.h@).push(v)), self.min_periods as int, q, __r));       // #C01,C05 output_is_window_statistic
+            lemma_outs_step(self.h@, c, |w: Seq<T>, o: U| ewm_spec(vals(w), self.min_periods as int, rv(self.oma), o));
+        }
+//@at body first
+    let ghost mp0 = min_periods;
+    let ghost out0 = out;
+    proof {
+        ax_lits(); broadcast use a_real;
+        let wr = window as real;
+        let a0 = 2real / wr;
+        assert(a0 * wr == 2real) by(nonlinear_arith) requires a0 == 2real / wr, wr >= 1real;
+        assert(a0 != 0real) by(nonlinear_arith) requires a0 * wr == 2real;
+    }
+//@at body last
+    proof {
+        let h = __clo1.h@;
+        let s = outs(h);
+        if window >= 1 {
+            let p = |i: int, o: U| ewm_spec(vals(wnd(this.view(), window, i)), mp_eff(mp0, window, 0), 1real - 2real / (window as real), o);
+            assert forall|i: int| 0 <= i < s.len() implies p(i, #[trigger] s[i]) by {
+                lemma_fifo_window_is_wnd(h, this.view(), window, i);
+                assert(ewm_spec(vals(fifo_window(h, i)), __clo1.min_periods as int, rv(__clo1.oma), h[i].out));
+            }
+            lemma_delivered_each(__ret, match out0 { Some(o) => Some(final(o).written()), None => None }, s, p);
+        }
+    }
+//@end
 
 } // verus!
 fn main() {}
